@@ -6,6 +6,7 @@ import FtProofs.Lemmas.TraceMachine
 import FtProofs.Lemmas.TraceNest
 import FtProofs.Lemmas.TraceKernel
 import FtProofs.Lemmas.TraceAddr
+import FtProofs.C04
 namespace Ft
 open Ft.C16
 
@@ -55,6 +56,27 @@ theorem trace_use_one_row (s : MState) (r : String) (c pos : Int) (ty : String) 
     memAll (addUse s r c pos ty ovr) k' =
       memAll s k' ++ (if k' = (r, ty) ∧ memOn s k' then (useLine s r c pos ovr).toList else []) :=
   ⟨(addUse_lines s r c pos ty ovr k').1, (addUse_lines s r c pos ty ovr k').2.1⟩
+
+/-- `_startTrace` (called by `registerRank` for every declared trace of the rank and of the ranks
+    matched to it) on a trace that has no lines yet puts exactly the header
+    `r_pos … , r …, fiber_pos` of the loop order down to the trace's level there.
+    `_partial`: one call; that a trace of a regular run is started exactly once before its first row
+    (so that the header is the first line of the file) is checked on every case (`fileShapeOK` on the
+    implementation's files, equality with the model's files) but not proved as a run invariant. -/
+theorem trace_header_line_partial (s : MState) (k : Key) (x : Slot) (i : Nat)
+    (hs : s.slots k = some x) (hl : levelOf s k.1 = some i)
+    (hc : C16.content s k = []) (hm : memAll s k = []) :
+    C16.content (startTrace s k) k = (if x.file.isSome then [headerOf (s.loopOrder.take (i + 1))] else []) ∧
+    memAll (startTrace s k) k = (if x.mem.isSome then [headerOf (s.loopOrder.take (i + 1))] else []) :=
+  startTrace_header s k x i hs hl hc hm
+
+/-- `incIter`, `endIter`, `matchRanks`, `consumeTrace` and `endCollect` add no line to any trace:
+    together with `trace_use_one_row` — rows come from `addUse` only, one per call, in call order. -/
+theorem trace_other_calls_no_rows (s : MState) (e : Ev) (k : Key)
+    (he : match e with | .inc _ => True | .endI _ => True | .matchR _ _ => True | .consume _ _ => True
+                       | .endCollect => True | _ => False) :
+    C16.content (step s e) k = C16.content s k ∧ memAll (step s e) k = memAll s k :=
+  step_keeps_lines s e k he
 
 -- non-vacuity: a run that flushes at 2 but not at 1000, same content
 example :
@@ -155,6 +177,23 @@ theorem trace_lazy_iter_addresses {σ S β : Type} (rank : String) (body : S →
     ∃ (i : Nat) (p : β), pos = (i : Int) ∧ (yieldsOf steps)[i]? = some (c, p) := by
   obtain ⟨i, p, e1, e2⟩ := lazyItems_addr rank body steps s 0 c pos hk h
   exact ⟨i, p, by simpa using e1, e2⟩
+
+/-- The sequences the lazy sources hand to their consumer (the sequence `trace_lazy_iter_addresses`
+    and `trace_populate_src_addresses_partial` index into), declaratively: `a & b` on sorted operands
+    yields C04's truth-table intersection; leader-follower yields every presented leader element;
+    a projection yields the shifted coordinates inside the interval, cut at its upper end. -/
+theorem trace_lazy_yields_spec {α β : Type} (rank tyA tyB : String) (ta tb : Bool)
+    (a : Fib Int α) (b : Fib Int β) (ha : Sorted a) (hb : Sorted b) (dfl : β)
+    (srcRank ty : String) (t : Bool) (off : Int) (lo hi : Option Int) :
+    yieldsOf (andSteps rank tyA tyB ta tb 0 0 a b) = andSpec a b ∧
+    yieldsOf (lfSteps rank rank tyA tyB ta dfl b 0 a) = a.map (fun e => (e.1, (e.2, (posLookup b e.1).getD dfl))) ∧
+    yieldsOf (projSteps srcRank ty t off lo hi a) =
+      ((a.takeWhile (fun e => !aboveHi hi (e.1 + off))).filter (fun e => inLo lo (e.1 + off))).map
+        (fun e => (e.1 + off, e.2)) := by
+  refine ⟨?_, lfSteps_yields _ _ _ _ _ _ _ a 0, ?_⟩
+  · rw [andSteps_yields, and_spec a b ha hb]
+  · simp only [projSteps, yieldsOf]
+    exact projLoop_yields srcRank ty t off lo hi a 0
 
 /-- `and_iterator`: every `intersect_i` row carries the coordinate of an element of its operand and
     the index of that element IN THE SEQUENCE THE OPERAND PRESENTS (its non-empty elements).
